@@ -320,6 +320,30 @@ def createVA (s : State) (src to : Addr) (amount : List (String Ã— Option Int)) 
   | .err => .err
   | .panic => .panic
 
+/-- one iteration of the per-coin loop of `UnlockUnbondedContinuousVestingAccountCoins`;
+    `acc` / `vc` are the account and its vesting coins as captured before the loop -/
+def unlockStep (now : Int) (acc : Acct) (vc : Coins) (r : Outcome Acct) (kv : String Ã— Int) : Outcome Acct :=
+  match r with
+  | .ok a =>
+    if kv.2 > 0 then
+      let vcd := amountOf vc kv.1
+      if vcd = 0 then .panic else
+      let diff := (kv.2 * amountOf acc.ov kv.1).tdiv vcd
+      match coinsSub? a.ov [(kv.1, diff)] with
+      | none => .panic
+      | some ov1 =>
+        match vestingCoins { a with ov := ov1 } now with
+        | none => .panic
+        | some vc1 =>
+          if vcd - amountOf vc1 kv.1 < kv.2 then
+            match coinsSub? ov1 [(kv.1, 1)] with
+            | none => .panic
+            | some ov2 => .ok { a with ov := ov2 }
+          else .ok { a with ov := ov1 }
+    else .ok a
+  | .err => .err
+  | .panic => .panic
+
 /-- `UnlockUnbondedContinuousVestingAccountCoins` (D1 repaired: integer division) -/
 def unlockUnbonded (s : State) (owner : String) (amt : Coins) : Outcome (State Ã— Acct) :=
   if !coinsValid amt then .err else
@@ -334,30 +358,7 @@ def unlockUnbonded (s : State) (owner : String) (amt : Coins) : Outcome (State Ã
       match vestingCoins acc s.now with
       | none => .panic
       | some vc =>
-        let step (r : Outcome Acct) (kv : String Ã— Int) : Outcome Acct :=
-          match r with
-          | .ok a =>
-            if kv.2 > 0 then
-              -- `orignalVestings` / `vestingCoins` are the values captured before the loop
-              let vcd := amountOf vc kv.1
-              if vcd = 0 then .panic else
-              let diff := (kv.2 * amountOf acc.ov kv.1).tdiv vcd
-              match coinsSub? a.ov [(kv.1, diff)] with
-              | none => .panic
-              | some ov1 =>
-                let a1 := { a with ov := ov1 }
-                match vestingCoins a1 s.now with
-                | none => .panic
-                | some vc1 =>
-                  if vcd - amountOf vc1 kv.1 < kv.2 then
-                    match coinsSub? a1.ov [(kv.1, 1)] with
-                    | none => .panic
-                    | some ov2 => .ok { a1 with ov := ov2 }
-                  else .ok a1
-            else .ok a
-          | .err => .err
-          | .panic => .panic
-        match amt.foldl step (.ok acc) with
+        match amt.foldl (unlockStep s.now acc vc) (.ok acc) with
         | .ok a => .ok ({ s with accts := s.accts.set owner a }, a)
         | .err => .err
         | .panic => .panic
